@@ -8,46 +8,26 @@ From Norad.Proofs Require Import FsP RequestP.
 Open Scope string_scope.
 Open Scope list_scope.
 
-(** ** The full statement, and why the code as it is does not meet it (finding F23) *)
-
-(** "For every request and every UFO: if the full load succeeds, the partial load succeeds and
-    returns the full load restricted to the request." *)
-Definition C17_full : Prop :=
+(** For every request (six switches, any layer filter), every target and EVERY file system: if
+    the full load succeeds, the partial load succeeds and returns the full load restricted to the
+    request.  (No class hypothesis any more: since 8d15b4b / 83f6c18 a layer directory that is not
+    a plain name - the former finding F23, [./glyphs] - is rejected by every load.) *)
+Theorem C17_restrict :
   ∀ (r : request) (t : path) (m : lfs) (f : lfont),
     val (load req_all t) m = inr f → val (load r t) m = inr (restrict r f).
+Proof. exact load_restrict. Qed.
 
-(** The full load recognises the default layer by the LAST component of its directory, the
-    default-layer-only filter by comparing the path AS WRITTEN with [glyphs]: a UFO whose
-    layercontents.plist says [./glyphs] loads completely, but the default-only load fails. *)
+(** Regression: the former witness of F23 is refused by the full and by the partial load alike. *)
 Definition f23_fs : lfs :=
   list_to_map
     [([], Dir); (["u"], Dir); (["u"; "metainfo.plist"], File (LMeta 3 1));
      (["u"; "layercontents.plist"], File (LLayerContents [("public.default", [CurDir; Normal "glyphs"])]));
      (["u"; "glyphs"], Dir); (["u"; "glyphs"; "contents.plist"], File (LContents []))].
 Definition f23_req : request := Request false false false false false false (LFilter false true None).
-Theorem C17_refuted_F23 : ¬ C17_full.
-Proof.
-  intros H.
-  assert (E : ∃ f, val (load req_all ["u"]) f23_fs = inr f) by (eexists; vm_compute; reflexivity).
-  destruct E as [f E]. specialize (H f23_req ["u"] f23_fs f E).
-  assert (E2 : val (load f23_req ["u"]) f23_fs = inl MissingDefaultLayer) by (vm_compute; reflexivity).
-  rewrite E2 in H. discriminate H.
-Qed.
-Theorem C17_F23_in_class : KnownClass_F23 f23_fs ["u"].
-Proof. intros H%default_plainb_spec. vm_compute in H. discriminate. Qed.
-(** the class is decidable; outside it every default layer directory is written plainly *)
-Theorem C17_class_decidable : ∀ m t, default_plain m t ∨ KnownClass_F23 m t.
-Proof. exact F23_decidable. Qed.
-
-(** ** Outside the class *)
-
-(** For every request (six switches, any layer filter), every target and every file system
-    outside the class: if the full load succeeds, the partial load succeeds and returns the full
-    load restricted to the request. *)
-Theorem C17_restrict :
-  ∀ (r : request) (t : path) (m : lfs) (f : lfont),
-    default_plain m t → val (load req_all t) m = inr f → val (load r t) m = inr (restrict r f).
-Proof. exact load_restrict. Qed.
+Example C17_F23_rejected :
+  val (load req_all ["u"]) f23_fs = inl (InvalidLayerDirectory "public.default") ∧
+  val (load f23_req ["u"]) f23_fs = inl (InvalidLayerDirectory "public.default").
+Proof. split; vm_compute; reflexivity. Qed.
 
 (** The default layer is always present and first ... *)
 Theorem C17_default_present :
@@ -135,11 +115,10 @@ Proof.
   split; [eexists; split; vm_compute; reflexivity|].
   split; vm_compute; reflexivity.
 Qed.
-Example C17_example_wf : wf_ufo ex17_fs ["u"] ∧ default_plain ex17_fs ["u"].
+Example C17_example_wf : wf_ufo ex17_fs ["u"].
 Proof.
   assert (E : layer_entries_of ex17_fs ["u"] = [("bg", [Normal "glyphs.bg"]); ("public.default", [Normal "glyphs"])])
     by (vm_compute; reflexivity).
-  split.
   - unfold wf_ufo. rewrite E. split.
     + constructor; [|constructor; [|constructor]].
       * exists "glyphs.bg". split; [done|]. split; [apply (proj1 (bool_decide_eq_false _)); vm_compute; reflexivity|].
@@ -149,5 +128,4 @@ Proof.
         assert (glif_entries_of ex17_fs (["u"] ++ ["glyphs"]) = [("a", [Normal "a.glif"]); ("b", [Normal "b.glif"])]) as -> by (vm_compute; reflexivity).
         constructor; [by eexists|]. constructor; [by eexists|constructor].
     + apply (bool_decide_unpack _). vm_compute. exact I.
-  - apply default_plainb_spec. vm_compute. reflexivity.
 Qed.
